@@ -54,6 +54,7 @@ fn main() {
         "C07" => run_property(props::c07_parent_ready::C07, run_args),
         "C08" => run_property(props::c08_finality::C08, run_args),
         "C15" => run_property(props::c15_merkle::C15, run_args),
+        "C18" => run_property(props::c18_standstill::C18, run_args),
         _ => {
             eprintln!("unknown property id {id}");
             2
